@@ -175,7 +175,7 @@ def run(chk):
     if binary:
         try:
             quick = chk.tier == "quick"
-            corpus = [cc.parse_line(l) for l in corpus_lines if l.startswith("ftc")]
+            corpus = [cc.parse_line(l) for l in corpus_lines if l.startswith(("ftc", "ftm"))]
             streams = [("corpus", corpus)]
             nb = 40 if quick else 400
             streams.append(("bursts", [burst_script(chk.rng, trials=20 if quick else 50) for _ in range(nb)]))
@@ -274,7 +274,7 @@ def search(chk):
 def replay(chk, path):
     rep = json.load(open(path))
     binary = cc.build_ft(chk)
-    cases = [x["case"] for x in rep.get("failing_inputs", []) + rep.get("divergences", []) if isinstance(x.get("case"), str) and x["case"].startswith("ftc")]
+    cases = [x["case"] for x in rep.get("failing_inputs", []) + rep.get("divergences", []) if isinstance(x.get("case"), str) and x["case"].startswith(("ftc", "ftm"))]
     scripts = [cc.parse_line(c) for c in cases]
     cc.check_batch(chk, binary, "replay", scripts, monitor_c06, exact_load_return=False)
     steps = [x["case"] for x in rep.get("failing_inputs", []) + rep.get("divergences", []) if isinstance(x.get("case"), str) and x["case"].startswith("c06s ")]
